@@ -140,6 +140,8 @@ type Server struct {
 
 	// serviceSafePointLock is a lock for UpdateServiceGCSafePoint
 	serviceSafePointLock sync.Mutex
+	// gcSafePointLock is a lock for UpdateGCSafePoint
+	gcSafePointLock sync.Mutex
 
 	// Store as map[string]*grpc.ClientConn
 	clientConns sync.Map
